@@ -111,6 +111,83 @@ def oracle(ctx, case, steps, ctor_err):
                                             f'written {have} times')
 
 
+def dedicated_case(rng):
+    """a chain / ring of units in which every base-graph edge has its dedicated descriptor pair(s) per unit of
+    order; labels are arbitrary, so under the label-insensitive convention (legacy=False) every pair still
+    matches, under the label-sensitive one only equal labels do"""
+    n = rng.randint(2, 5)
+    legacy = rng.random() < 0.4
+    all_atom = rng.random() < 0.6
+    ring = n >= 3 and rng.random() < 0.3
+    kind = rng.choice(['$', '><'])
+    labels = ['', 'A', 'B', 'x1']
+    orders = [rng.choice([1, 1, 2]) for _ in range(n if ring else n - 1)]
+    if all_atom:
+        orders = [1] * len(orders)
+    # descriptors per atom (three atoms per unit): the units of one edge sit on different atom pairs
+    on = [[[], [], []] for _ in range(n)]
+    expected = 0
+    uniq = 0
+    for e, o in enumerate(orders):
+        a, b = e, (e + 1) % n
+        for u in range(o):
+            uniq += 1
+            la = 'L%d' % uniq if legacy else rng.choice(labels)
+            lb = la if legacy else rng.choice(labels)
+            pa, pb = (2, 0) if u == 0 else (1, 1)
+            if kind == '$':
+                on[a][pa].append('[$%s]' % la)
+                on[b][pb].append('[$%s]' % lb)
+            else:
+                on[a][pa].append('[>%s]' % la)
+                on[b][pb].append('[<%s]' % lb)
+            expected += 1
+    frags = []
+    for i in range(n):
+        if all_atom:
+            body = ['C', rng.choice(['C', 'C', 'N']), 'C']
+        else:
+            body = ['[#X%d]' % j for j in range(3)]
+        for j in range(3):
+            rng.shuffle(on[i][j])
+        text = ''.join(body[j] + ''.join(on[i][j]) for j in range(3))
+        frags.append('#U%d=%s' % (i, text))
+    sym = {1: '', 2: '=', 3: '#'}
+    base = ''
+    for i in range(n):
+        base += '[#U%d]' % i
+        if ring and i == 0:
+            base += sym[orders[-1]] + '1'
+        if i < n - 1:
+            base += sym[orders[i]]
+    if ring:
+        base += '1'
+    return {'kind': 'dedicated', 's': '{' + base + '}.{' + ','.join(frags) + '}', 'all_atom': all_atom, 'legacy': legacy,
+            'expected_bonds': expected, 'edges': [[e, (e + 1) % n, o] for e, o in enumerate(orders)]}
+
+
+def dedicated_oracle(ctx, case, steps, ctor_err):
+    oracle(ctx, case, steps, ctor_err)
+    if steps is None:
+        ctx.fail(suites.slim(case), f'description with dedicated descriptor pairs rejected: {ctor_err[1]}')
+        return
+    st = steps[-1]
+    if st['result'] != 'ok':
+        ctx.fail(suites.slim(case), f'description with dedicated descriptor pairs rejected: {st["result"]}')
+        return
+    fine = st['fine_graph']
+    per = collections.Counter()
+    for a, b, d in fine.edges(data=True):
+        fa, fb = fine.nodes[a].get('fragid', []), fine.nodes[b].get('fragid', [])
+        if fa and fb and fa[0] != fb[0] and fine.nodes[a].get('element') != 'H' and fine.nodes[b].get('element') != 'H':
+            per[frozenset((fa[0], fb[0]))] += 1
+    for a, b, o in case['edges']:
+        if per.get(frozenset((a, b)), 0) != o:
+            ctx.fail(suites.slim(case), f'{per.get(frozenset((a, b)), 0)} bonds between coarse nodes {a} and {b}; the edge has order {o} and a '
+                                        f'dedicated compatible descriptor pair per unit (legacy={case["legacy"]})')
+            return
+
+
 def compat_suite(ctx):
     from cgsmiles.resolve import compatible
     rng = ctx.rng('compat')
@@ -156,9 +233,11 @@ def run(ctx):
         if i % 3 == 0:
             case = gen_mol.cut_case(rng, label_p=0.6)
             case['legacy'] = rng.random() < 0.7
+        elif i % 6 == 1:
+            case = dedicated_case(rng)
         else:
             case = gen_mol.ambiguous_case(rng)
-        suites.run_resolve_case(ctx, 'resolve', case, oracle=oracle)
+        suites.run_resolve_case(ctx, 'resolve', case, oracle=dedicated_oracle if case.get('kind') == 'dedicated' else oracle)
 
 
 def corpus_case(ctx, payload):
